@@ -60,6 +60,49 @@ def eig0T (sqrt : K → K) (A : M3 K) (ev : K) : V3 K :=
   else if imax = 1 then ⟨(cr r1.1).x / d r1.2, (cr r1.1).y / d r1.2, (cr r1.1).z / d r1.2⟩
   else ⟨(cr r2.1).x / d r2.2, (cr r2.1).y / d r2.2, (cr r2.1).z / d r2.2⟩
 
+/-- `Impl::orthoComp` with the translated branch condition, normalising 2-vector and components of `u` -/
+def orthoCompT (sqrt : K → K) (e : V3 K) : V3 K × V3 K :=
+  let u : V3 K :=
+    if absK (get3 Gen.orthoComp_cond.2 (e.x, e.y, e.z)) < absK (get3 Gen.orthoComp_cond.1 (e.x, e.y, e.z)) then
+      let t := Gen.orthoComp_tempA e.x e.y e.z
+      let L := (one : K) / sqrt (((zero : K) + t.1 * t.1) + t.2 * t.2)
+      let c := Gen.orthoComp_uA e.x e.y e.z
+      ⟨L * c.1, L * c.2.1, L * c.2.2⟩
+    else
+      let t := Gen.orthoComp_tempB e.x e.y e.z
+      let L := (one : K) / sqrt (((zero : K) + t.1 * t.1) + t.2 * t.2)
+      let c := Gen.orthoComp_uB e.x e.y e.z
+      ⟨L * c.1, L * c.2.1, L * c.2.2⟩
+  (u, cross e u)
+
+/-- the branch structure of `Impl::eig1` with the four translated normalisation sequences -/
+def eig1CoeffsT (sqrt : K → K) (m00 m01 m11 : K) : Option (K × K) :=
+  let a00 := absK m00
+  let a01 := absK m01
+  let a11 := absK m11
+  if a11 ≤ a00 then
+    if (zero : K) < maxK a00 a01 then
+      if a01 ≤ a00 then some (Gen.eig1_leaf0a sqrt m00 m01 m11) else some (Gen.eig1_leaf0b sqrt m00 m01 m11)
+    else none
+  else
+    if (zero : K) < maxK a11 a01 then
+      if a01 ≤ a11 then some (Gen.eig1_leaf1a sqrt m00 m01 m11) else some (Gen.eig1_leaf1b sqrt m00 m01 m11)
+    else none
+
+/-- `Impl::eig1` from the translated pieces -/
+def eig1T (sqrt : K → K) (A : M3 K) (e0 : V3 K) (ev1 : K) : V3 K :=
+  let uv := orthoCompT sqrt e0
+  let u := uv.1
+  let v := uv.2
+  let Au := mv3 A u
+  let Av := mv3 A v
+  let m00 := Gen.eig1_m00 (dotv3 u Au) (dotv3 u Av) (dotv3 v Av) ev1
+  let m01 := Gen.eig1_m01 (dotv3 u Au) (dotv3 u Av) (dotv3 v Av) ev1
+  let m11 := Gen.eig1_m11 (dotv3 u Au) (dotv3 u Av) (dotv3 v Av) ev1
+  match eig1CoeffsT sqrt m00 m01 m11 with
+  | none => u
+  | some (a, b) => comb3 a u b v
+
 /-- one branch of the assembly: `eig0(S, eval[a], evec[b]); eig1(S, evec[c], evec[d], eval[e]); evec[f] = cross(evec[g], evec[h])`
 on `Matrix evec(0.0)` -/
 def assemble3 (sqrt : K → K) (S : M3 K) (l : K × K × K) (t : Nat × Nat × Nat × Nat × Nat × Nat × Nat × Nat) :
@@ -67,7 +110,7 @@ def assemble3 (sqrt : K → K) (S : M3 K) (l : K × K × K) (t : Nat × Nat × N
   let z : V3 K := ⟨zero, zero, zero⟩
   let E0 : V3 K × V3 K × V3 K := (z, z, z)
   let E1 := set3 t.2.1 (eig0T sqrt S (get3 t.1 l)) E0
-  let E2 := set3 t.2.2.2.1 (eig1 sqrt S (get3 t.2.2.1 E1) (get3 t.2.2.2.2.1 l)) E1
+  let E2 := set3 t.2.2.2.1 (eig1T sqrt S (get3 t.2.2.1 E1) (get3 t.2.2.2.2.1 l)) E1
   set3 t.2.2.2.2.2.1 (cross (get3 t.2.2.2.2.2.2.1 E2) (get3 t.2.2.2.2.2.2.2 E2)) E2
 
 /-- the trigonometric branch of the 3x3 eigenvector code with the translated assembly tables
